@@ -1,7 +1,7 @@
 //! C25 — handshake negotiation accepts only the highest common version.
 //! GRID, complete over a small universe: every pair of version tables over 4
 //! version numbers where each version is {absent, data A, data B(other magic)}
-//! (thorough adds data C = A's magic with different non-magic fields and
+//! (thorough adds data C = A's magic with different non-magic fields,
 //! D = A's magic in the two-field form). net1: the real
 //! `handshake::Server::handshake` over the plexer rig, proposal injected raw,
 //! reply read back from the wire. net2: the real `ResponderBehavior` receives
@@ -35,7 +35,11 @@ fn data(opt: u8) -> Option<Data> {
         1 => Some((MAGIC_A, false, Some(1), Some(false))),
         2 => Some((MAGIC_B, false, Some(1), Some(false))),
         3 => Some((MAGIC_A, true, Some(0), Some(false))),
-        _ => Some((MAGIC_A, false, None, None)),
+        4 => Some((MAGIC_A, false, None, None)),
+        // the two-field form on the OTHER network, and the four-field form with everything
+        // switched off: the pair that differs in shape and in magic only
+        5 => Some((MAGIC_B, false, None, None)),
+        _ => Some((MAGIC_A, false, Some(0), Some(false))),
     }
 }
 
@@ -182,7 +186,7 @@ fn oracle(client: &Table, server: &Table, reply: &Reply, accepted: &Option<(u64,
 }
 
 pub fn run(ctx: Ctx) -> ! {
-    let opts: usize = if ctx.thorough { 5 } else { 3 };
+    let opts: usize = if ctx.thorough { 7 } else { 3 };
     let n = opts.pow(VERSIONS.len() as u32);
     let evals = AtomicU64::new(0);
     let outcomes: Mutex<BTreeMap<String, u64>> = Default::default();
@@ -191,6 +195,9 @@ pub fn run(ctx: Ctx) -> ! {
     if ctx.thorough {
         // a fifth version number with the three basic options
         passes.push((3, VERSIONS5.to_vec()));
+    } else {
+        // all seven data options (shapes x magics x switched-off parameters) on two versions
+        passes.push((7, vec![13, 14]));
     }
     for (popts, versions) in &passes {
     let pn = popts.pow(versions.len() as u32);
@@ -230,7 +237,7 @@ pub fn run(ctx: Ctx) -> ! {
     let cov = cov! {
         "evaluations" => evals.load(Ordering::Relaxed),
         "distinct_nontrivial" => distinct.lock().unwrap().len(),
-        "rule" => "evaluation = one (client table, responder table, stack) negotiation on the real responder; tables = every assignment of {absent, A, B(other magic)[, C(same magic, other fields), D(two-field form)]} to versions 11..14, all pairs; distinct_nontrivial = distinct (stack, reply message, table sizes) observed",
+        "rule" => "evaluation = one (client table, responder table, stack) negotiation on the real responder; tables = every assignment of {absent, A, B(other magic)[, C(same magic, other fields), D(two-field form), E(two-field form, other magic), F(four-field form, everything off)]} to versions 11..14, all pairs (quick: the three basic options on 11..14 plus all seven options on versions 13, 14); distinct_nontrivial = distinct (stack, reply message, table sizes) observed",
         "samples" => samples,
         "outcome_classes" => outcomes,
         "table_pairs" => n * n,
